@@ -99,4 +99,40 @@ theorem ofFn_congr {α : Type} (s : List Nat) (f g : List Nat → α) (h : ∀ p
   intro p hp
   exact h p ((mem_indices s p).1 hp)
 
+/-- every flat position is the offset of an in-range multi-index (`np.unravel_index`) -/
+theorem unravel : ∀ (s : List Nat) (i : Nat), i < sz s → ∃ p, inRange s p = true ∧ offset s p = i := by
+  intro s
+  induction s with
+  | nil => intro i h; exact ⟨[], rfl, by simp [sz] at h; simp [offset, h]⟩
+  | cons n s ih =>
+    intro i h
+    simp only [sz] at h
+    have hm : 0 < sz s := by
+      cases hz : sz s with
+      | zero => rw [hz] at h; simp at h
+      | succ m => omega
+    obtain ⟨p, hp1, hp2⟩ := ih (i % sz s) (Nat.mod_lt _ hm)
+    refine ⟨(i / sz s) :: p, ?_, ?_⟩
+    · simp only [inRange, Bool.and_eq_true, decide_eq_true_eq]
+      exact ⟨(Nat.div_lt_iff_lt_mul hm).2 h, hp1⟩
+    · simp only [offset, hp2]
+      rw [Nat.mul_comm]; exact Nat.div_add_mod i (sz s)
+
+/-- two well-formed arrays of the same shape with the same element at every in-range multi-index are equal -/
+theorem NDArr.ext_get {α : Type} (a b : NDArr α) (ha : a.WF) (hb : b.WF) (hs : a.shape = b.shape)
+    (h : ∀ idx, inRange a.shape idx = true → a.get? idx = b.get? idx) : a = b := by
+  obtain ⟨sa, da⟩ := a
+  obtain ⟨sb, db⟩ := b
+  simp only at hs
+  subst hs
+  simp only [NDArr.WF] at ha hb
+  simp only [NDArr.mk.injEq, true_and]
+  apply List.ext_getElem?
+  intro i
+  by_cases hi : i < sz sa
+  · obtain ⟨p, hp1, hp2⟩ := unravel sa i hi
+    have := h p hp1
+    simpa [NDArr.get?, hp1, hp2] using this
+  · rw [List.getElem?_eq_none (by omega), List.getElem?_eq_none (by omega)]
+
 end MenpoModel.C13
